@@ -198,6 +198,47 @@ func c19UfsPipelineScenario(msize uint32, piece int, dotu bool, D int) Scenario 
 	}}
 }
 
+// (f) the Unix file server told to export a path that goes through a symbolic link:
+// two connections send their first Tattach at the same time, then work on their own fids
+func c19UfsSymlinkedRoot(dotu bool, D int) Scenario {
+	var root, base string
+	name := fmt.Sprintf("ufs-symlinked-root two first attaches dotu=%v", dotu)
+	body := func() {
+		vs.EnableHB()
+		os.RemoveAll(root)
+		os.MkdirAll(filepath.Join(root, "d"), 0o755)
+		os.WriteFile(filepath.Join(root, "f"), []byte("x"), 0o644)
+		link := filepath.Join(base, "export-link")
+		os.Remove(link)
+		os.Symlink(root, link)
+		h := newUfsH(link, 8216, dotu)
+		ver := "9P2000"
+		if dotu {
+			ver = "9P2000.u"
+		}
+		un := ""
+		if !dotu {
+			un = go9p.OsUsers.Uid2User(os.Geteuid()).Name()
+		}
+		c1, c2 := h.Connect(), h.Connect()
+		c1.Version(8216, ver)
+		c2.Version(8216, ver)
+		vs.Window(true)
+		c1.Send(dotu, tattach(1, 0, wire.NOFID, un, uint32(os.Geteuid()), dotu))
+		c2.Send(dotu, tattach(1, 0, wire.NOFID, un, uint32(os.Geteuid()), dotu))
+		vs.Idle()
+		c1.Send(dotu, twalk(2, 0, 1, "d"), &wire.Msg{Type: wire.Tstat, Tag: 3, Fid: 0})
+		c2.Send(dotu, twalk(2, 0, 1, "f"))
+		vs.Idle()
+		vs.Window(false)
+	}
+	return Scenario{Name: name, Run: func(rc *RunCtx) *Result {
+		base, root = scratchDir("c19")
+		defer os.RemoveAll(base)
+		return runVs(rc, &VsSpec{Name: name, Body: body, Check: c19Check, P: D, Delay: true})
+	}}
+}
+
 // (b)(c)(d) server framework with the scripted implementation: pipelined requests on
 // distinct fids right after Tversion, one request parked and flushed, a second
 // connection opened, used and dropped while the first stays busy
@@ -312,6 +353,7 @@ func c19Scenarios(tier string) []Scenario {
 		out = append(out, c19ClientScenario(2, dotu, D))
 	}
 	out = append(out, c19UfsScenario(3, true, D), c19ClientScenario(3, false, D))
+	out = append(out, c19UfsSymlinkedRoot(false, D), c19UfsSymlinkedRoot(true, D))
 	out = append(out, c19UfsPipelineScenario(64, 0, false, D), c19UfsPipelineScenario(64, 33, true, D), c19UfsPipelineScenario(96, 0, true, D))
 	sort.Slice(out, func(i, j int) bool { return out[i].Name < out[j].Name })
 	return out
@@ -320,7 +362,7 @@ func c19Scenarios(tier string) []Scenario {
 func init() {
 	register(&Property{ID: "C19", Level: "model_checking",
 		Technique: "stateless model checking under the controlled scheduler with an own vector-clock happens-before race monitor evaluated on every explored schedule (memory accesses instrumented by vinst -hb)",
-		Rule:      "workloads inside the property's precondition: one client shared by 2-3 goroutines each working on its own file against Ufs (walks from the shared root fid, open/read/write/stat/clunk); the server framework with pipelined requests on distinct fids right after Tversion, a parked request flushed while others run, a second connection opened, used and dropped while the first stays busy; the client against a scripted peer; Ufs at msize 64/96 with three pipelined Twrites on distinct fids followed by 8 x msize of walks from the shared root fid to fresh fids, delivered one frame per read (the buffer runs out on a frame boundary) or in 33-byte pieces; every schedule with at most D deviations from the default scheduler (quick 1, thorough 2). The monitor mirrors the race detector's edges (mutex, channel incl. capacity edge, go, WaitGroup, atomics, the standard library's global I/O synchronisation). distinct = distinct per-object operation orders",
+		Rule:      "workloads inside the property's precondition: one client shared by 2-3 goroutines each working on its own file against Ufs (walks from the shared root fid, open/read/write/stat/clunk); the server framework with pipelined requests on distinct fids right after Tversion, a parked request flushed while others run, a second connection opened, used and dropped while the first stays busy; the client against a scripted peer; Ufs exporting a path through a symbolic link with two connections attaching at the same time; Ufs at msize 64/96 with three pipelined Twrites on distinct fids followed by 8 x msize of walks from the shared root fid to fresh fids, delivered one frame per read (the buffer runs out on a frame boundary) or in 33-byte pieces; every schedule with at most D deviations from the default scheduler (quick 1, thorough 2). The monitor mirrors the race detector's edges (mutex, channel incl. capacity edge, go, WaitGroup, atomics, the standard library's global I/O synchronisation). distinct = distinct per-object operation orders",
 		Assumptions: []string{"sequential consistency; accesses by name to local variables are not tracked; the scripted implementation and the harness are not instrumented", "a race is reported once per unordered pair of source positions"},
 		Scenarios:   c19Scenarios, QuickS: 110, ThoroughS: 1500})
 }
